@@ -135,7 +135,8 @@ def fmt(t, depth=0):
 
 def subterms(t):
     if isinstance(t, tuple):
-        yield t
+        if t and isinstance(t[0], str):
+            yield t
         for x in t:
             if isinstance(x, tuple):
                 for s in subterms(x):
@@ -661,6 +662,43 @@ class Interp(object):
                         out.extend(self.exec_block(st.orelse, q))
                     else:
                         out.append(q)
+                continue
+            if isinstance(it, tuple) and it[0] == "listof" and len(it[2]) <= 3:
+                # list(<unknown>) + known appended items: at most one symbolic iteration over the unknown
+                # part, then the known items in order
+                ps = [p]
+                z = p.fork()
+                ps.append(z)
+                elem = ("elem", it[1], self.site(st))
+                first = []
+                for r in self.assign(st.target, elem, p, st):
+                    for s_ in self.exec_block(st.body, r):
+                        if s_.status == "continue":
+                            s_.status = "ok"
+                        first.append(s_)
+                ps = first + [z]
+                for item in it[2]:
+                    nps = []
+                    for q_ in ps:
+                        if q_.status != "ok":
+                            nps.append(q_)
+                            continue
+                        for r in self.assign(st.target, item, q_, st):
+                            for s_ in self.exec_block(st.body, r):
+                                if s_.status == "continue":
+                                    s_.status = "ok"
+                                nps.append(s_)
+                    ps = nps
+                for q_ in ps:
+                    if q_.status == "break":
+                        q_.status = "ok"
+                        self.emit(q_, "loop", st, ("exit", "break"))
+                        out.append(q_)
+                    elif q_.status == "ok":
+                        self.emit(q_, "loop", st, ("exit", "exhausted"))
+                        out.extend(self.exec_block(st.orelse, q_))
+                    else:
+                        out.append(q_)
                 continue
             # zero iterations
             nonempty = items is not None and len(items) > 0
